@@ -97,11 +97,11 @@ namespace RecInt
         ruint<K+1> resmul;
         ruint<K> x(b);
         const ruint<K> n(nn); // the modulus is read until the end: a may be the modulus
-        T j;
+        unsigned int j;
 
         a = 1; mod_n(a, n); // 1 mod n (n may be 1)
-        for (j = 1; j != 0; j <<= 1) {
-            if (c & j) {
+        for (j = 0; j < 8 * sizeof(T); j++) { // not `T j = 1; j != 0; j <<= 1`: it never ends for T = bool
+            if ((c >> j) & 1) {
                 // a = a * x mod n
                 lmul(resmul, a, x);
                 mod_n(a, resmul, n);
